@@ -72,7 +72,7 @@ func Mv(r *Root, src, dst string) error {
 		return err
 	}
 
-	if srcDir.name == dstDir.name && srcFname == dstFname {
+	if srcDir == dstDir && srcFname == dstFname {
 		return nil
 	}
 
